@@ -560,6 +560,10 @@ class SelectOverCumulative(Contract):
             share = And(*[T(T_[a.name].start) < T(T_[b.name].end) for a in S for b in S if a is not b])
             cs.append(Not(share))
         out = [Clause("report[cumulative worker chosen through a selection: at most size tasks at any instant]", And(*cs) if cs else z3.BoolVal(True), props=("C02",), kind="sound", bounded=self.bounded, regions={"three tasks select the cumulative worker": z3.BoolVal(len(on_cw) >= 3)})]
+        # the selection picks exactly one of the two listed resources -- as reported: a listed resource that is not
+        # selected (the cumulative worker included: none of its units) does not hold the task
+        counts = [len([r for r in T_[t.name].assigned_resources if r in ("cw", "w")]) for t in ctx["tasks"] if T_[t.name].scheduled]
+        out.append(Clause("report[each task is held by exactly the one resource its selection picks]", z3.BoolVal(all(c == 1 for c in counts)), props=("C02",), kind="sound", bounded=self.bounded))
         mirrored = all(any(a[0] == t.name for a in sol.resources[rn].assignments) for t in ctx["tasks"] for rn in T_[t.name].assigned_resources if rn in sol.resources) and all(rn in sol.resources for t in ctx["tasks"] for rn in T_[t.name].assigned_resources)
         out.append(Clause("report[a task lists a resource exactly when the resource lists the task]", z3.BoolVal(bool(mirrored)), props=("C11",), kind="equals", bounded=self.bounded, regions={"a task selects the cumulative worker": z3.BoolVal(len(on_cw) >= 1)}))
         return out
